@@ -130,7 +130,7 @@ def _safe(e, allowed_calls, vararg, exc_names):
         return f'attribute access `{norm(e)}` on a value of unknown type'
     if isinstance(e, ast.Call):
         fn = norm(e.func)
-        if fn in allowed_calls or fn in ('str', 'repr', 'type'):
+        if fn in allowed_calls or fn in ('str', 'repr', 'type') or fn.startswith('self.logger.'):
             for a in e.args:
                 r = _safe(a, allowed_calls, vararg, exc_names)
                 if r:
